@@ -146,8 +146,10 @@ class BackendRegistryState:
             return False
         has_checked[0] = True
 
-        if any(module_name not in self.seen_module_names for module_name in sys.modules):
-            new_module_names = [module_name for module_name in sys.modules if module_name not in self.seen_module_names]
+        # Snapshot the module names: another thread may import modules (and thus resize sys.modules) while we iterate
+        module_names = list(sys.modules)
+        if any(module_name not in self.seen_module_names for module_name in module_names):
+            new_module_names = [module_name for module_name in module_names if module_name not in self.seen_module_names]
 
             for new_module_name in new_module_names:
                 self.seen_module_names.add(new_module_name)
